@@ -2,6 +2,7 @@ package drive
 
 import (
 	"bytes"
+	"encoding/hex"
 	"encoding/binary"
 	"errors"
 	"fmt"
@@ -34,6 +35,7 @@ type RFrame struct {
 	Rs     string `json:"rs"`     // close reason class: "ok" | "bad" (invalid UTF-8)
 	Comp   string `json:"comp"`   // deflate variant if this frame starts a compressed message
 	Plain  int    `json:"plain"`  // plaintext length of that message
+	Short  int    `json:"short"`  // >0: the header declares Len bytes but only Short-1 payload bytes are sent
 	Key    string `json:"key"`    // mask key choice: "", "zero", "ff", "pay"
 }
 
@@ -68,6 +70,7 @@ type RProg struct {
 	Reads  []ROp    `json:"reads"`
 	Seed   uint64   `json:"seed"`
 	Tail   int      `json:"tail"` // extra NextReader calls at the end
+	Raw    string   `json:"raw"`  // hex: raw bytes sent verbatim instead of frames (C07 garbage)
 }
 
 // Ev is a generic trace event.
@@ -295,10 +298,14 @@ func (r *readerRun) concretise() []byte {
 			r.expect[i+1] = plain
 		default:
 			if r.cf[i].payload == nil {
+				n := f.Len
+				if f.Short > 0 && f.Short-1 < n {
+					n = f.Short - 1
+				}
 				if f.Op == 1 || f.Op == 9 || f.Op == 10 {
-					r.cf[i].payload = wire.TextPay(p.Seed, i, f.Len)
+					r.cf[i].payload = wire.TextPay(p.Seed, i, n)
 				} else {
-					r.cf[i].payload = wire.Pay(p.Seed, i, f.Len)
+					r.cf[i].payload = wire.Pay(p.Seed, i, n)
 				}
 			}
 		}
@@ -333,7 +340,12 @@ func (r *readerRun) concretise() []byte {
 	swallowed := false
 	for i := range r.cf {
 		f := &r.cf[i]
+		declared := f.Len
 		f.Len = len(f.payload)
+		short := f.Short > 0 && f.Lk == "n" && declared > f.Len
+		if short {
+			f.Len = declared
+		}
 		wf := wire.Frame{Op: f.Op, Fin: f.Fin, R1: f.R1, R2: f.R2, R3: f.R3, Masked: f.Mk, Payload: f.payload}
 		switch f.Key {
 		case "zero":
@@ -351,6 +363,10 @@ func (r *readerRun) concretise() []byte {
 				wf.Enc = 64
 			}
 		}
+		if short {
+			wf.DeclSet, wf.Decl = true, uint64(declared)
+			wf.Enc = wire.MinEnc(uint64(declared))
+		}
 		switch f.Lk {
 		case "max":
 			wf.Enc, wf.DeclSet, wf.Decl = 64, true, 1<<63-1
@@ -364,7 +380,7 @@ func (r *readerRun) concretise() []byte {
 			stream = append(stream, b...)
 		}
 		f.end = len(stream)
-		if f.Lk != "n" {
+		if f.Lk != "n" || short {
 			// A frame declaring a huge length swallows everything after it:
 			// nothing that follows is distinguishable from its payload, so it
 			// is the last frame actually sent.
@@ -439,6 +455,9 @@ func chunkSizes(kind string, n int, rng *rand.Rand, cf []concFrame) []int {
 func RunReader(p *RProg) (evs []Ev) {
 	r := &readerRun{p: p, role: p.Role}
 	stream := r.concretise()
+	if p.Raw != "" {
+		stream, _ = hex.DecodeString(p.Raw)
+	}
 	return r.run(stream)
 }
 
@@ -526,9 +545,9 @@ func (r *readerRun) run(stream []byte) (evs []Ev) {
 		switch {
 		case f.end == f.start:
 			arr, h2, hdrOK, pgot = "none", false, false, 0
-		case f.end <= failStart && f.Lk == "n":
+		case f.end <= failStart && f.Lk == "n" && len(f.payload) == f.Len:
 			arr = "full"
-		case f.end <= cutOff && f.Lk == "n":
+		case f.end <= cutOff && f.Lk == "n" && len(f.payload) == f.Len:
 			arr = "with"
 		case f.start >= cutOff:
 			arr, h2, hdrOK, pgot = "none", false, false, 0
@@ -551,11 +570,11 @@ func (r *readerRun) run(stream []byte) (evs []Ev) {
 			u8 = utf8.Valid(f.payload[2:])
 		}
 		frs[i] = Ev{"op": f.Op, "fin": f.Fin, "r1": f.R1, "r2": f.R2, "r3": f.R3, "mk": f.Mk,
-			"len": len(f.payload), "lk": f.Lk, "min": !f.NonMin, "code": code, "utf8": u8,
+			"len": f.Len, "lk": f.Lk, "min": !f.NonMin, "code": code, "utf8": u8,
 			"arr": arr, "h2": h2, "hdrOK": hdrOK, "pgot": pgot, "plain": f.Plain, "comp": f.Comp != ""}
 	}
 	policy := "per_message"
-	evs = append(evs, Ev{"e": "Reset", "tid": p.ID,
+	evs = append(evs, Ev{"e": "Reset", "tid": p.ID, "raw": p.Raw != "",
 		"cfg": Ev{"role": p.Role, "pmce": p.Pmce, "limit": p.Limit, "hmode": p.HMode, "herrAt": p.HErrAt, "policy": policy,
 			"rbuf": p.RBuf, "fault": kind, "chunk": p.Chunk},
 		"fr": frs})
